@@ -133,12 +133,12 @@ def _limit_endpoint(
     s_l: torch.Tensor,
     s_r: torch.Tensor,
 ) -> torch.Tensor:
-    # If derivative points opposite to the first secant, zero it
-    mask_sign_change = d_end * s_l < 0
+    # If derivative points opposite to the first secant (or that secant is flat), zero it
+    mask_sign_change = torch.sign(d_end) != torch.sign(s_l)
     d_end = torch.where(mask_sign_change, torch.zeros_like(d_end), d_end)
 
     # If secants switch sign, cap magnitude to 3*|s_l|
-    mask_sign_change = s_l * s_r < 0
+    mask_sign_change = torch.sign(s_l) != torch.sign(s_r)
     mask_cap = mask_sign_change & (torch.abs(d_end) > 3.0 * torch.abs(s_l))
     return torch.where(mask_cap, 3.0 * s_l, d_end)
 
@@ -170,8 +170,17 @@ def _pchip_derivatives(
     delta_l, delta_r = delta[:-1], delta[1:]
     h_l, h_r = h[:-1], h[1:]
 
-    mask_same_sign = (delta_l * delta_r) > 0  # excludes zeros + sign changes
-    dh = _weighted_harmonic_mean(delta_l, delta_r, h_l, h_r)
+    # excludes zeros + sign changes (signs, not the product: the product can underflow)
+    mask_same_sign = (torch.sign(delta_l) * torch.sign(delta_r)) > 0
+    # Where the harmonic mean is not selected, evaluate it on harmless secants:
+    # a division by zero in the unselected branch would turn gradients into NaN.
+    ones = torch.ones_like(delta_l)
+    dh = _weighted_harmonic_mean(
+        torch.where(mask_same_sign, delta_l, ones),
+        torch.where(mask_same_sign, delta_r, ones),
+        h_l,
+        h_r,
+    )
     d[1:-1] = torch.where(mask_same_sign, dh, torch.zeros_like(dh))
 
     # Endpoints (one-sided + limiter)
